@@ -29,6 +29,7 @@ ASSUMPTIONS = [
     "evaluation budget n symbolic in [1, N] (N = 6, thorough 10); population / neighbourhood sizes 1-3; opaque-token representation",
     "a loop-iteration fuel (is_done consulted more than 4*N+8 times) stands for non-termination; such a witness is replayed concretely with the same fuel",
     "wall-clock budgets (TimeBudget) are outside the claim",
+    "loop_gp_mutation_then_tournament: the random draws are a fixed deterministic stream (tournament draws multiply paths and are not what the budget depends on); budget and population size stay symbolic",
 ]
 
 
@@ -80,6 +81,7 @@ def _mk(ctx, cfg, budget):
     p = SingleObjectiveProblem(fit, minimize=False)
     rep = TokRep()
     r = FreshRandom(ctx)
+    r.fixed = bool(cfg.get("fixed_random"))
     alg = cfg["alg"]
     batch = 1
     if alg == "rs":
@@ -100,6 +102,10 @@ def _mk(ctx, cfg, budget):
             step = GenericMutationStep(1)
         elif kind == "elitism_only":
             step = ElitismStep()
+        elif kind == "mutation_then_tournament":  # selection over individuals that were never evaluated
+            step = SequenceStep(GenericMutationStep(1), TournamentSelection(2))
+        elif kind == "mutation_then_elitism":
+            step = ParallelStep([SequenceStep(GenericMutationStep(1), ElitismStep()), NoveltyStep()], weights=[1, 1])
         elif kind == "default":
             step = default_generic_programming_step()
         else:
@@ -211,6 +217,8 @@ def obligations(tier: str):
     add("eval_budget", "loop_gp_fresh_per_generation", alg="gp", N=N, pop=3, step="freshk", kmin=1)
     add("eval_budget", "loop_gp_mutation_step", alg="gp", N=N, pop=3, step="mutation")
     add("eval_budget", "loop_gp_elitism_novelty_mutation", alg="gp", N=N if T else 5, pop=4, popmin=4, step="mixed")
+    add("eval_budget", "loop_gp_mutation_then_tournament", alg="gp", N=N if T else 5, pop=3, step="mutation_then_tournament", fixed_random=True)
+    add("eval_budget", "loop_gp_mutation_then_elitism", alg="gp", N=N if T else 5, pop=3, popmin=2, step="mutation_then_elitism")
     add("eval_budget", "loop_gp_elitism_only", alg="gp", N=4, pop=2, step="elitism_only")
     for alg in ("rs", "1p1"):
         add("target", f"target_{alg}", alg=alg, N=4 if T else 3)
